@@ -394,17 +394,18 @@ Definition GInv (a : ast) (L : positive → nat) : Prop :=
   (∀ h u, handles a !! h = Some u → valid (mgr a) u) ∧
   (∀ h u, handles a !! h = Some u → h < next_hid a).
 Definition MStep (a a' : ast) : Prop :=
-  extends (mgr a) (mgr a') ∧ handles a' = handles a ∧ next_hid a' = next_hid a.
+  extends (mgr a) (mgr a') ∧ handles a' = handles a ∧ next_hid a' = next_hid a ∧
+  max_nodes (mgr a') = max_nodes (mgr a).
 
 Lemma MStep_trans a1 a2 a3 : MStep a1 a2 → MStep a2 a3 → MStep a1 a3.
-Proof. intros (?&?&?) (?&?&?). split; [by etrans|split; congruence]. Qed.
+Proof. intros (?&?&?&?) (?&?&?&?). split; [by etrans|split_and!; congruence]. Qed.
 
 Lemma lift_G {A} (m : MS A) a L r a' : tsafe m → GInv a L → lift m a = (r, a') →
   GInv a' L ∧ MStep a a' ∧ m (mgr a) = (r, mgr a').
 Proof.
   intros Hm (HI&Hl&HC&Hv&Hf). unfold lift. destruct (m (mgr a)) as [r0 s'] eqn:E.
   intros [= <- <-]. destruct (Hm _ _ _ HI Hl E) as (HI'&He&Hfr&HC').
-  split; [|split; [by split|done]].
+  split; [|split; [split_and!; [done..|by apply frame_max_nodes]|done]].
   split; [done|]. split; [by apply (frame_off (mgr a))|]. split; [by apply HC'|].
   split; [|done]. intros h u Hu. apply (valid_extends (mgr a)); [done|by apply (Hv h)].
 Qed.
@@ -414,7 +415,7 @@ Lemma tmp_new_G u a L r a' : GInv a L → valid (mgr a) u → tmp_new u a = (r, 
 Proof.
   intros (HI&Hl&HC&Hv&Hf) Hu. unfold tmp_new. cbn [bind get].
   rewrite (proj2 (mem_valid _ _) Hu). cbn [ensure bind ret]. unfold lift.
-  rewrite (incref_ok _ u HI Hu). intros [= <- <-]. split; [done|]. split; [|by split].
+  rewrite (incref_ok _ u HI Hu). intros [= <- <-]. split; [done|]. split; [|by split_and!].
   split; [by apply Inv_bump|]. split; [done|]. split; [by apply Counts_bump|].
   split; [|done]. intros h x Hx. by apply (Hv h).
 Qed.
@@ -426,7 +427,8 @@ Proof.
   intros (HI&Hl&HC&Hv&Hf) Hu HL. unfold tmp_del, lift.
   destruct (decref u (mgr a)) as [r0 s'] eqn:E. intros [= <- <-].
   destruct (decref_total _ _ _ _ HI E) as (HI'&He&Hfr&Hok&_).
-  destruct (Hok Hu) as [-> HC']. split; [done|]. split; [|by split].
+  destruct (Hok Hu) as [-> HC']. split; [done|].
+  split; [|split_and!; [done..|by apply frame_max_nodes]].
   split; [done|]. split; [by apply (frame_off (mgr a))|]. split; [by apply HC'|].
   split; [|done]. intros h x Hx. apply (valid_extends (mgr a)); [done|by apply (Hv h)].
 Qed.
@@ -454,6 +456,11 @@ Lemma node_of_run h a :
   node_of h a = (match handles a !! h with Some u => Ok u | None => Err EKey end, a).
 Proof. unfold node_of. cbn [bind get]. by destruct (handles a !! h). Qed.
 
+Lemma catch_run_g {S A} (m : M S A) s r s' : m s = (r, s') → catch m s = (Ok r, s').
+Proof. unfold catch. by intros ->. Qed.
+
+(** for every outcome: when [other | ~ self] raises (a full table), the
+    temporary [~ self] dies with the unwinding frame *)
 Lemma asafe_f_le hu hv : asafe (f_le hu hv).
 Proof.
   intros a r a' HA. pose proof HA as (HI&Hl&HC&Hv&Hf). unfold f_le.
@@ -485,9 +492,24 @@ Proof.
   destruct (lift_G _ a2 _ ro a3 (tsafe_apply _ _ _ _) G2 E3) as (G3&M3&R3).
   rewrite (apply_or_run _ v n Hv2 Hn2) in R3.
   pose proof G2 as (HI2&Hl2&_).
-  apply ite_spec_off in R3 as (o&->&_&_&_&Ho&_);
-    [|done|done|by apply valid_1|done|done].
-  rewrite (bind_ok _ _ _ _ _ E3).
+  rewrite (bind_ok _ _ _ _ _ (catch_run_g _ _ _ _ E3)).
+  destruct ro as [o|e]; cycle 1.
+  { (* the temporary ~u dies with the frame *)
+    assert (Hn3 : valid (mgr a3) n) by (by apply (valid_extends (mgr a2)); [apply M3|]).
+    destruct (tmp_del n a3) as [r4 a4] eqn:E4.
+    destruct (tmp_del_G n a3 _ r4 a4 G3 Hn3) as (->&G4&M4); [|done|].
+    { unfold ledger_inc. rewrite decide_True by done. lia. }
+    rewrite (bind_ok _ _ _ _ _ E4). intros [= <- <-].
+    assert (M : MStep a a4).
+    { repeat (eapply MStep_trans; [eassumption|]). done. }
+    destruct M as (He&Hh&Hnx&_). destruct G4 as (HI4&Hl4&HC4&Hv4&Hf4).
+    split; [|split; [done|split; [by rewrite Hh|lia]]].
+    split; [done|]. split; [done|]. split; [|done].
+    eapply Counts_ext; [|exact HC4].
+    intros k. unfold hledger. rewrite Hh. fold (hledger a). fold L.
+    unfold ledger_inc, ledger_dec. repeat case_decide; try done; lia. }
+  apply ite_spec in R3 as (_&_&_&(Ho&_));
+    [|done|done|by apply valid_1|done|by right].
   destruct (tmp_new o a3) as [r4 a4] eqn:E4.
   destruct (tmp_new_G o a3 _ r4 a4 G3 Ho E4) as (->&G4&M4).
   rewrite (bind_ok _ _ _ _ _ E4).
@@ -519,7 +541,7 @@ Proof.
   rewrite (bind_ok _ _ _ _ _ E8). intros [= <- <-].
   assert (M : MStep a a8).
   { repeat (eapply MStep_trans; [eassumption|]). done. }
-  destruct M as (He&Hh&Hnx). destruct G8 as (HI8&Hl8&HC8&Hv8&Hf8).
+  destruct M as (He&Hh&Hnx&_). destruct G8 as (HI8&Hl8&HC8&Hv8&Hf8).
   split; [|split; [done|split; [by rewrite Hh|lia]]].
   split; [done|]. split; [done|]. split; [|done].
   eapply Counts_ext; [|exact HC8].
